@@ -90,6 +90,10 @@ def r1_exact_reads(ctx, prog):
                 t = fact_of(oc, name, line, idx)
                 if name == 'fread':
                     want = args[2] if args[1] == '1' else None
+                    # a length that was checked against what is left of the file cannot be read short from a file that is merely cut off (the crash model): no exactness test needed
+                    fits = want is not None and any(e2[0] == 'fact' and e2[2] is True and re.match(r'fitsInFile@\d+\(\w+,%s\)$' % re.escape(want), e2[1]) for e2 in oc['events'][:idx])
+                    if fits:
+                        continue
                     if not (isinstance(t, tuple) and t[2] is True and want is not None and t[1] == want):
                         bad = (oc, 'fread at line %s requests %s bytes but success is reported without the result being equal to that count (%s)' % (line, args[2], 'tested: %r' % (t,) if t is not None else 'result not compared'))
                 else:
@@ -289,8 +293,11 @@ def run(ctx):
 
 
 MUTANTS = [
-    dict(name='readbytestring-short-read-accepted', rule='C16.R1', file='src/lib/object_store/File.cpp', after='bool File::readByteString(',
-         old='\tif (fread(&value[0], 1, len, stream) != len)\n', new='\tif (fread(&value[0], 1, len, stream) == 0)\n'),
+    dict(name='readulong-short-read-accepted', rule='C16.R1', file='src/lib/object_store/File.cpp', after='bool File::readULong(',
+         old='\tif (fread(&ulongVal[0], 1, 8, stream) != 8)\n', new='\tif (fread(&ulongVal[0], 1, 8, stream) == 0)\n'),
+    dict(name='readbytestring-unbounded-and-short', rule='C16.R1', file='src/lib/object_store/File.cpp', after='bool File::readByteString(',
+         old='\tif (!fitsInFile(stream, len))\n\t{\n\t\treturn false;\n\t}\n\n\tvalue.resize(len);\n\n\tif (len == 0)\n\t{\n\t\treturn true;\n\t}\n\n\tif (fread(&value[0], 1, len, stream) != len)',
+         new='\tvalue.resize(len);\n\n\tif (len == 0)\n\t{\n\t\treturn true;\n\t}\n\n\tif (fread(&value[0], 1, len, stream) == 0)'),
     dict(name='readulong-result-ignored-in-mechset', rule='C16.R1', file='src/lib/object_store/File.cpp', after='bool File::readMechanismTypeSet(',
          old='\t\tif (!readULong(mechType))\n\t\t{\n\t\t\treturn false;\n\t\t}\n', new='\t\t(void) readULong(mechType);\n'),
     dict(name='loader-ignores-failed-bool', rule='C16.R2', file='src/lib/object_store/ObjectFile.cpp', after='if (osAttrType == BOOLEAN_ATTR)',
